@@ -206,9 +206,13 @@ def from_loki(e):
         return ('cast', str(e.name).lower(), from_loki(e.parameters[0]), _kind_name(e.kind))
     if isinstance(e, sym.InlineCall):
         args = tuple(from_loki(a) for a in e.parameters)
-        if e.kw_parameters:
-            return ('call', str(e.function.name).lower(), args,
-                    tuple((str(k).lower(), from_loki(v)) for k, v in e.kw_parameters.items()))
+        kw = tuple((str(k).lower(), from_loki(v)) for k, v in e.kw_parameters.items()) if e.kw_parameters else ()
+        fs = type(e.function).__name__
+        if fs != 'ProcedureSymbol':
+            # e.g. simplify() rebuilds calls with a DeferredTypeSymbol; cgen's choice of % vs fmod depends on it
+            return ('call', str(e.function.name).lower(), args, kw, fs)
+        if kw:
+            return ('call', str(e.function.name).lower(), args, kw)
         return ('call', str(e.function.name).lower(), args)
     if isinstance(e, sym.Array):
         if e.dimensions:
@@ -302,7 +306,11 @@ def to_loki(a, lenv):
     if t == 'not':
         return sym.LogicalNot(rec(a[1]))
     if t == 'call':
-        return sym.InlineCall(sym.ProcedureSymbol(a[1], scope=scope), parameters=tuple(rec(x) for x in a[2]))
+        if len(a) > 4 and a[4] == 'DeferredTypeSymbol':
+            fsym = sym.DeferredTypeSymbol(a[1], scope=scope)
+        else:
+            fsym = sym.ProcedureSymbol(a[1], scope=scope)
+        return sym.InlineCall(fsym, parameters=tuple(rec(x) for x in a[2]))
     if t == 'cast':
         return ops.Cast(a[1], rec(a[2]), kind=_kind_node(a[3], scope))
     raise ValueError(f'cannot build {t}')
@@ -1780,6 +1788,7 @@ DEFAULT_TEXT_FLAGS = {
     # constructs that are avoided unless hostile (known parse_expr mechanisms, see C07):
     'neg_before_pow': False, 'long_int_mulchain': False, 'float_kind': False, 'numeric_kind': False,
     'digit_kind': False, 'eqv': False, 'bare_component': False, 'not_before_cmp': False, 'digit_dot_op': False,
+    'd_exponent': False, 'positional_kind': False,
     'redundant_parens': 0.15, 'dot_ops': 0.4, 'upper': 0.15, 'spaces': True,
     'calls': True, 'arrays': True, 'components': True,
 }
@@ -1798,7 +1807,7 @@ class TextGen:
         self.f.update(flags or {})
         if self.f['hostile']:
             for k in ('neg_before_pow', 'long_int_mulchain', 'float_kind', 'numeric_kind', 'digit_kind', 'eqv',
-                      'bare_component', 'not_before_cmp', 'digit_dot_op'):
+                      'bare_component', 'not_before_cmp', 'digit_dot_op', 'd_exponent', 'positional_kind'):
                 self.f[k] = True
         self.features = set()
 
@@ -1886,7 +1895,12 @@ class TextGen:
                 return 'tt%x', ('var', 'tt%x'), True
             s, sa = self.subscript(3)
             return f'tt%r({s})', ('idx', 'tt%r', (sa,)), True
-        txt = r.choice(['0.5', '1.5', '2.0', '0.25', '3.', '.5', '2.5e0', '1.0E-1', '1.5d0', '2.5D-1', '12.5', '1e1'])
+        txt = r.choice(['0.5', '1.5', '2.0', '0.25', '3.', '.5', '2.5e0', '1.0E-1', '1.5d0', '2.5D-1', '12.5', '1e1', '0.1d0'])
+        if 'd' in txt.lower():
+            if not f['d_exponent']:
+                txt = '1.25'
+            else:
+                self.features.add('d-exponent')
         k = None
         if 'd' not in txt.lower():
             y = r.random()
@@ -1945,7 +1959,8 @@ class TextGen:
         x = r.random()
         if x < 0.4:
             return f'{self.case("real")}({t}, kind=jprb)', ('cast', 'real', a, 'jprb')
-        if x < 0.7:
+        if x < 0.7 and self.f['positional_kind']:
+            self.features.add('positional-kind')
             return f'real({t}, jprb)', ('cast', 'real', a, 'jprb')
         return f'real({t})', ('cast', 'real', a, None)
 
